@@ -14,10 +14,10 @@ sys.path.insert(0, ROOT)
 from engine import common, mbt, tlc  # noqa: E402
 
 CKINDS = ["builtin", "builtin2", "module", "nested", "baseonly", "custominit", "kwonly", "mid", "local", "dynamic", "eqhash", "dcerr", "attr", "local_shadow"]
-AKINDS = ["none", "json", "picklable", "unpicklable", "socket", "unreprable", "mixed", "const", "loadfail"]
+AKINDS = ["none", "json", "picklable", "unpicklable", "socket", "unreprable", "mixed", "const", "loadfail", "localscalar", "nocopy"]
 ENCS = ["json", "dict", "pickle"]
 FOREIGN = ["func", "cls", "inst", "module", "nested_cls", "nested_func", "os_system", "eval", "object",
-           "own_func", "own_cls", "own_factory", "own_exc_mod_func"]
+           "own_func", "own_cls", "own_factory", "own_exc_mod_func", "wrapped_func", "exc_method", "exc_inner_cls", "partial_inst"]
 GOOD = ["exc", "nested_exc", "builtin_exc", "baseonly", "custominit", "sub_exc", "mixed"]
 SYNTH = ["missing_attr", "missing_nested", "deep_missing", "lazy", "lazy_sub", "cold_pkg", "nomod", "nomodule_field", "nomodule_dotted", "nomodule_builtin_name"]
 
